@@ -208,7 +208,7 @@ impl Denoted {
 
 /// Is the crate identifier `got` an acceptable reading of identifier text `t`?
 /// all-digit text that fits u64 without leading zeros: exactly Numeric(value);
-/// all-digit text with leading zeros: Numeric(value) or AlphaNumeric(text) (the statement does not say);
+/// all-digit text with leading zeros that fits u64: the same number (zero padding does not change a number);
 /// all-digit text that overflows u64: any identifier that prints as the text or numerically equal text;
 /// anything else: exactly AlphaNumeric(text).
 pub fn id_ok(t: &str, got: &nodejs_semver::Identifier) -> bool {
@@ -216,13 +216,9 @@ pub fn id_ok(t: &str, got: &nodejs_semver::Identifier) -> bool {
     let all_digits = !t.is_empty() && t.bytes().all(|b| b.is_ascii_digit());
     if all_digits {
         match t.parse::<u64>() {
-            Ok(n) => {
-                let canonical = !(t.len() > 1 && t.starts_with('0'));
-                match got {
-                    Numeric(m) => *m == n,
-                    AlphaNumeric(s) => !canonical && s == t,
-                }
-            }
+            // a digit-only identifier denotes that number, zero-padded or not (node-semver's loose
+            // reading, and what precedence "numerics by value" needs)
+            Ok(n) => matches!(got, Numeric(m) if *m == n),
             Err(_) => match got {
                 Numeric(_) => false,
                 AlphaNumeric(s) => s == t,
